@@ -1,8 +1,139 @@
-/- Driver for C20 (stub). -/
-import ControlModel.Basic
+/- Driver for C20: line = "input<TAB>implObs"; formats in harness/props/c20/c20.go. -/
+import ControlModel.Model.Query
+import ControlModel.Spec.C20
 
 namespace Driver.C20
+open Query Spec.C20
 
-def processLine (_line : String) : String := "UNIMPLEMENTED\t0\t-"
+def str (s : Str) : SExp := .atom (String.ofList s)
+def chars? : SExp → Option Str
+  | .atom s => some s.toList
+  | _ => none
+
+def payloadSx : Payload → SExp
+  | .ok s => .list [.atom "ok", str s]
+  | .err c => .list [.atom "err", .atom c]
+  | .dash => .atom "-"
+  | .unmodelled => .list [.atom "unmodelled"]
+
+def payload? : SExp → Option Payload
+  | .atom "-" => some .dash
+  | .list [.atom "ok", .atom s] => some (.ok s.toList)
+  | .list [.atom "err", .atom c] => some (.err c)
+  | _ => none
+
+def kvs? (x : SExp) : Option (List (Str × Str)) := do
+  (← x.list?).mapM? fun
+    | .list [.atom k, .atom v] => some (k.toList, v.toList)
+    | _ => none
+
+/-! ## parse cases -/
+
+def modelParse (s : Str) : SExp :=
+  let full :=
+    match parse s with
+    | some q => SExp.list [.atom "ok", str q.component, .ofNat q.runType, str q.role, str q.entry,
+        str (print q), str (print q), str (absRaw q), .ofBool (matchFull s).isSome]
+    | none => .list [.atom "err", .atom "bad_key", .ofBool (matchFull s).isSome]
+  let ent :=
+    match parseEntries s with
+    | some (c, n, r) => SExp.list [.atom "ok", str c, .ofNat n, str r, .ofBool (matchEntries s).isSome]
+    | none => .list [.atom "err", .atom "bad_key", .ofBool (matchEntries s).isSome]
+  let par :=
+    match parseParams s with
+    | some (b, vars) => SExp.list ([.atom "ok", .ofBool b] ++ vars.map fun kv => .list [str kv.1, str kv.2])
+    | none => .list [.atom "err", .ofBool (matchParams s).isSome]
+  .list [.list [.atom "full", full], .list [.atom "entries", ent], .list [.atom "params", par]]
+
+def fullObs? : SExp → Option FullObs
+  | .list [.atom "ok", .atom c, n, .atom r, .atom e, .atom raw, .atom path, .atom absraw, _] => do
+      pure (.ok ⟨c.toList, ← n.nat?, r.toList, e.toList⟩ raw.toList path.toList absraw.toList)
+  | .list [.atom "err", .atom "bad_key", _] => some .badKey
+  | .list [.atom "err", _, _] => some .other
+  | _ => none
+
+def specParse (s : Str) (impl : SExp) : Bool :=
+  match impl with
+  | .list (.list [.atom "full", f] :: _) =>
+    match fullObs? f with
+    | some o => parseOk s o
+    | none => false
+  | _ => false
+
+/-! ## lookup cases -/
+
+def leaves? (x : SExp) : Option (List Leaf) := do
+  (← x.list?).mapM? fun
+    | .list [.atom key, .atom "val", .atom content] => some ⟨splitOn '/' key.toList, some content.toList⟩
+    | .list [.atom key, .atom "dir", _] => some ⟨splitOn '/' key.toList, none⟩
+    | _ => none
+
+def query? : SExp → Option Query
+  | .list [.atom c, n, .atom r, .atom e] => do pure ⟨c.toList, ← n.nat?, r.toList, e.toList⟩
+  | _ => none
+
+def modelLookup (t : List Leaf) (q : Query) (vars : List (Str × Str)) : SExp :=
+  let ex := yamlExists t
+  let pr := SExp.list (.atom "probes" :: (probes ex q).map str)
+  match resolve ex q with
+  | some r =>
+    .list [pr,
+      .list [.atom "resolved", .list [.atom "ok", str r.component, .ofNat r.runType, str r.role, str r.entry, str (print r)]],
+      .list [.atom "get", payloadSx (getComponent t r)],
+      .list [.atom "getq", payloadSx (getComponent t q)],
+      .list [.atom "proc", payloadSx (processComponent t r vars)]]
+  | none =>
+    .list [pr,
+      .list [.atom "resolved", .list [.atom "err", .atom "unresolved"]],
+      .list [.atom "get", .atom "-"],
+      .list [.atom "getq", payloadSx (getComponent t q)],
+      .list [.atom "proc", .atom "-"]]
+
+def resolved? : SExp → Option Resolved
+  | .list [.atom "ok", .atom c, n, .atom r, .atom e, .atom raw] => do
+      pure (.ok ⟨c.toList, ← n.nat?, r.toList, e.toList⟩ raw.toList)
+  | .list [.atom "err", .atom "unresolved"] => some .unresolved
+  | .list [.atom "err", _] => some .other
+  | _ => none
+
+def lookupObs? : SExp → Option LookupObs
+  | .list [.list (.atom "probes" :: ps), .list [.atom "resolved", r], .list [.atom "get", g],
+           .list [.atom "getq", gq], .list [.atom "proc", p]] => do
+      pure ⟨← ps.mapM? chars?, ← resolved? r, ← payload? g, ← payload? gq, ← payload? p⟩
+  | _ => none
+
+/-- (spec, hyp) for a lookup case -/
+def specLookup (t : List Leaf) (q : Query) (vars : List (Str × Str)) (impl : SExp) : Bool × String :=
+  match lookupObs? impl with
+  | none => (false, "-")
+  | some o =>
+    if lookupOk t q vars o then (true, "-")
+    else
+      -- attribute to the known finding: everything but the substitution clause holds and some substituted value
+      -- contains a character the autoescape rewrites
+      let esc := match o.resolved with
+        | .ok r _ => !valuesEscapeFree t r vars
+        | _ => false
+      if lookupOkButSubstitution t q vars o && esc then (false, "autoescape_html") else (false, "-")
+
+def processLine (line : String) : String :=
+  match SExp.fields line with
+  | [inp, impl] =>
+    match SExp.parse inp, SExp.parse impl with
+    | some (.list [.atom "parse", .atom s]), some implSx =>
+      let model := modelParse s.toList
+      let spec := specParse s.toList implSx
+      s!"{model}\t{if spec then 1 else 0}\t-"
+    | some (.list [.atom "lookup", qx, tx, vx]), some implSx =>
+      match query? qx, leaves? tx, kvs? vx with
+      | some q, some t, some vars =>
+        if !prefixFree t then "BADINPUT-tree\t0\t-"
+        else
+          let model := modelLookup t q vars
+          let (spec, hyp) := specLookup t q vars implSx
+          s!"{model}\t{if spec then 1 else 0}\t{hyp}"
+      | _, _, _ => "BADINPUT\t0\t-"
+    | _, _ => "BADINPUT\t0\t-"
+  | _ => "BADLINE\t0\t-"
 
 end Driver.C20
